@@ -202,8 +202,34 @@ func smoothJoinSubject(rng *rand.Rand) *subject {
 	desc := ""
 	var hints []C3
 	minSize := math.Inf(1)
+	aligned := n >= 2 && rng.Intn(3) == 0
+	var top float64
+	axis := rng.Intn(3)
 	for i := range ops {
 		ops[i] = randSDFOperand(rng, true)
+		if aligned {
+			// operands that reach the same face of the joint box at the same place: boxes with a
+			// common top along one axis that overlap in the other two, or nearly coincident balls.
+			// There the smoothed union bulges out of the plain union's box by the full fillet.
+			if i == 0 {
+				top = rng.NormFloat64()
+			}
+			if rng.Intn(4) != 0 {
+				lo := model3d.XYZ(-0.5-rng.Float64(), -0.5-rng.Float64(), -0.5-rng.Float64())
+				hi := model3d.XYZ(0.5+rng.Float64(), 0.5+rng.Float64(), 0.5+rng.Float64())
+				la, ha := lo.Array(), hi.Array()
+				ha[axis] = top
+				la[axis] = top - 0.4 - rng.Float64()
+				lo, hi = model3d.NewCoord3DArray(la), model3d.NewCoord3DArray(ha)
+				ops[i] = sdfOperand{&model3d.Rect{MinVal: lo, MaxVal: hi}, []C3{lo.Mid(hi)}, 0.4, fmt.Sprintf("Rect{%s %s}", f3(lo), f3(hi))}
+			} else {
+				ca := [3]float64{0.1 * rng.NormFloat64(), 0.1 * rng.NormFloat64(), 0.1 * rng.NormFloat64()}
+				rad := 0.5 + rng.Float64()
+				ca[axis] = top - rad
+				c := model3d.NewCoord3DArray(ca)
+				ops[i] = sdfOperand{&model3d.Sphere{Center: c, Radius: rad}, []C3{c}, rad, fmt.Sprintf("Sphere{C:%s R:%x}", f3(c), rad)}
+			}
+		}
 		desc += ops[i].desc + "; "
 		hints = append(hints, ops[i].hints...)
 		minSize = math.Min(minSize, ops[i].size)
@@ -211,6 +237,20 @@ func smoothJoinSubject(rng *rand.Rand) *subject {
 	radius := minSize * logUniform(rng, -1.5, 0.5)
 	if rng.Intn(8) == 0 {
 		radius = 0
+	}
+	if aligned {
+		desc = "aligned-tops; " + desc
+		// probes in the fillet just above the common top
+		for k := 0; k < 6; k++ {
+			pa := [3]float64{0.4 * rng.NormFloat64(), 0.4 * rng.NormFloat64(), 0.4 * rng.NormFloat64()}
+			// the fillet above two coplanar tops reaches (1-1/sqrt 2)*radius; half the probes in its top 3%
+			f := rng.Float64()
+			if k%2 == 0 {
+				f = 1 - 0.03*rng.Float64()
+			}
+			pa[axis] = top + radius*(1-math.Sqrt(0.5))*f
+			hints = append(hints, model3d.NewCoord3DArray(pa))
+		}
 	}
 	if rng.Intn(2) == 0 {
 		sdfs := make([]model3d.SDF, n)
@@ -521,7 +561,71 @@ func det3(a, b, c C3) float64 {
 	return a.X*(b.Y*c.Z-b.Z*c.Y) - a.Y*(b.X*c.Z-b.Z*c.X) + a.Z*(b.X*c.Y-b.Y*c.X)
 }
 
+// wedgePolytopeSubject: a knife-edge wedge 0 <= z <= slope*x, x <= L, |y| <= W in a random frame.
+// Two of its planes are nearly anti-parallel (dihedral angle = slope rad), so the vertices on
+// the sharp edge come from badly conditioned but still clearly non-singular plane triples.
+func wedgePolytopeSubject(rng *rand.Rand) *subject {
+	slope := logUniform(rng, -6, -2)
+	L := logUniform(rng, -1, 4)
+	W := L * logUniform(rng, -3, 0)
+	var u, v, w C3
+	if rng.Intn(2) == 0 {
+		k := rng.Intn(3)
+		u, v, w = axis3(k, 1), axis3((k+1)%3, 1), axis3((k+2)%3, 1)
+	} else {
+		u, v, w = frame3(randUnit3(rng), rng)
+	}
+	c := C3{}
+	if rng.Intn(2) == 0 {
+		c = offset3(rng, L)
+	}
+	type plane struct {
+		n C3
+		d float64 // n.(p-c) <= d
+	}
+	planes := []plane{
+		{mul3(w, -1), 0},
+		{add3(w, mul3(u, -slope)), 0},
+		{u, L},
+		{v, W},
+		{mul3(v, -1), W},
+	}
+	rng.Shuffle(len(planes), func(i, j int) { planes[i], planes[j] = planes[j], planes[i] })
+	var poly model3d.ConvexPolytope
+	desc := fmt.Sprintf("wedge slope=%x L=%x W=%x ", slope, L, W)
+	for _, pl := range planes {
+		sc := 1.0
+		if rng.Intn(2) == 0 {
+			sc = logUniform(rng, -2, 2)
+		}
+		n := mul3(pl.n, sc)
+		mx := sc * (pl.d + dot3(pl.n, c))
+		poly = append(poly, &model3d.LinearConstraint{Normal: n, Max: mx})
+		desc += fmt.Sprintf("{n:%s max:%x} ", f3(n), mx)
+	}
+	s := poly.Solid()
+	def := func(p C3) bool {
+		for _, l := range poly {
+			if !(dot3(l.Normal, p) <= l.Max) {
+				return false
+			}
+		}
+		return true
+	}
+	var hints []C3
+	for _, fx := range []float64{0.3, 0.6, 0.9} {
+		x := fx * L
+		hints = append(hints, add3(c, add3(mul3(u, x), add3(mul3(w, 0.5*slope*x), mul3(v, (rng.Float64()-0.5)*W)))))
+	}
+	sub := subject3("model3d.ConvexPolytope.Solid[thin wedge]", s, "ConvexPolytope{"+desc+"}").withUnder3(def).withHints3(hints)
+	sub.hMul = 100
+	return sub
+}
+
 func polytopeSubject(rng *rand.Rand) *subject {
+	if rng.Intn(4) == 0 {
+		return wedgePolytopeSubject(rng)
+	}
 	size := magnitude(rng)
 	if size > 1e3 || size < 1e-3 {
 		size = 1
